@@ -48,7 +48,7 @@ theorem dedupAddSSt_spec (ec : List Con) (s : St) : Added s (dedupAddSSt ec s).2
   unfold dedupAddSSt
   by_cases hf : (ec.filter fun c => !s.fe.hashes.contains c.id).isEmpty = true
   · have hnil : (ec.filter fun c => !s.fe.hashes.contains c.id) = [] := by simpa using hf
-    simp only [hf, ↓reduceIte, hnil]
+    simp only [hnil]
     refine ⟨by simp, by simp, rfl, rfl, rfl, rfl, rfl, by simp, fun i h => Or.inl h, ?_⟩
     intro c hc
     right; left; left
@@ -116,7 +116,7 @@ theorem stStage_add (E : Env) (k : Nat) (cs : List Con) (inv : Bool) (s : St) :
       else pure [] : M (List Con)) s = _
   unfold stAddSt dedupAddSSt
   by_cases hemp : cs.isEmpty = true
-  · simp [hemp, pure, M.pure]
+  · simp [hemp, pure]
   · simp only [hemp, Bool.false_eq_true, ↓reduceIte]
     by_cases hece : (filteredOf E (stStage E k) cs).isEmpty = true
     · simp [hece, pure, M.pure]
@@ -242,8 +242,8 @@ theorem stStage_simplify (E : Env) (k : Nat) (s : St) :
   unfold stSimplifySt
   simp only [bind, M.bind, M.getFe_apply]
   by_cases hemp : s.fe.constraints.isEmpty = true
-  · simp [hemp, pure, M.pure, M.bind, M.modifyFe_apply, M.getFe_apply]
-  · simp [hemp, M.bind, M.get_apply, M.modify_apply, pure, M.pure, M.modifyFe_apply, M.getFe_apply]
+  · simp [hemp, pure, M.pure, M.modifyFe_apply]
+  · simp [hemp, M.bind, M.get_apply, M.modify_apply, pure, M.pure, M.modifyFe_apply]
 
 theorem stSimplify_spec {E : Env} {R : Con → Prop} (hR : Reg R E) (hS : SimpOn R E) (U : List Con) (s : St)
     (h : CLInv0 U s) (hd : DInv R U s) : CLInv0 U (stSimplifySt E s).2 ∧ DInv R U (stSimplifySt E s).2 := by
